@@ -121,11 +121,11 @@ for _n, _c in [('time_ts_plus_dur', 't + d is the chrono result or an error when
                     claim=_c, vars=None)
 
 ALL_UNITS = ['value_arith', 'value_cmp', 'value_coll', 'macros', 'preresolved', 'interp', 'interp_vm_g0', 'interp_vm_g1', 'interp_vm_g2', 'interp_vm_g3',
-             'interp_vm_g4', 'interp_vm_g5', 'interp_vm_g6', 'interp_vm_g7', 'builtins', 'wiring', 'parser', 'json', 'compprog', 'parser_expr', 'parser_unary', 'parser_match', 'scanner', 'tokenizer', 'parser_member']
+             'interp_vm_g4', 'interp_vm_g5', 'interp_vm_g6', 'interp_vm_g7', 'builtins', 'wiring', 'parser', 'json', 'compprog', 'parser_expr', 'parser_unary', 'parser_match', 'scanner', 'tokenizer', 'parser_member', 'parser_matchx']
 
 PROPS = {
     'C02': dict(
-        units=['parser', 'parser_expr', 'parser_unary', 'parser_member', 'interp_vm_g1', 'interp_vm_g2', 'interp_vm_g3', 'interp_vm_g4'],
+        units=['parser', 'parser_expr', 'parser_unary', 'parser_member', 'parser_matchx', 'tokenizer', 'interp_vm_g1', 'interp_vm_g2', 'interp_vm_g3', 'interp_vm_g4'],
         level_text='Each binary precedence level of the real recursive-descent parser (||, &&, the relations incl. in, + -, * / %) is proved, for every token sequence, to produce exactly the tree the CEL grammar defines for that level: one next-tighter operand followed by a LEFT fold over (operator operand)*, with exactly the operator set of the level; the VM arm contracts fix the operand order (lhs pushed first, popped second). A failed obligation is reported as the violation.',
         not_covered=['?: / match (parse_expression, parse_turnary_expression), unary ! and - runs, postfix member/index/call chains, parentheses (parse_unary and below are known by contract only: sp_unary is uninterpreted)',
                      'whitespace independence (tokenizer not under contract)'],
@@ -140,13 +140,13 @@ PROPS = {
         assumptions=['inputs shorter than 2 GiB (the f-string brace depth counter is an i32)', 'std: from_str_radix / parse::<f64> / char::from_u32 / is_digit(16) / is_ascii_hexdigit / trim_start_matches as specified in the trampolines'],
     ),
     'C17': dict(
-        units=['parser', 'compprog', 'parser_expr', 'parser_unary', 'parser_member'],
+        units=['parser', 'compprog', 'parser_expr', 'parser_unary', 'parser_member', 'parser_matchx'],
         level_text='PARTIAL: for the five binary precedence levels the reported identifier set of a node is proved to be exactly the union of its operands\' sets (nothing dropped, nothing invented). Identifier primaries, calls, macros, f-strings, ternary and match (where the pinned tree drops names, F13) are NOT under contract, nor is filter_from_bindings.',
         not_covered=['parse_primary (add_ident), parse_member (call handling, check_for_const), f-strings, ternary, match: not under contract', 'filter_from_bindings / IdentFilterIter'],
         assumptions=['ProgramDetails::union_from is set union (HashSet, std)'],
     ),
     'C18': dict(
-        units=['parser', 'parser_expr', 'parser_unary', 'parser_member', 'scanner', 'tokenizer'],
+        units=['parser', 'parser_expr', 'parser_unary', 'parser_member', 'parser_matchx', 'scanner', 'tokenizer'],
         level_text='PARTIAL: for the five binary precedence levels the span of a node is proved to be exactly the hull of its first operand\'s span and its last operand\'s span (so children are contained in parents). Token spans, primaries, unary/postfix nodes, line/column tracking and syntax-error locations are NOT under contract.',
         not_covered=['token spans and line/column tracking (string_scanner / string_tokenizer)', 'primaries, unary, member nodes, ternary, match', 'syntax error locations', 're-compiling the spanned text'],
         assumptions=['SourceRange::surrounding is the hull (min of starts, max of ends; derive(Ord) on SourceLocation)'],
@@ -200,7 +200,7 @@ PROPS = {
         assumptions=['ScopedCounter RAII (the increment is undone on scope exit)'],
     ),
     'C10': dict(
-        units=['preresolved', 'interp', 'interp_vm_g0', 'compprog', 'parser_expr', 'parser_unary', 'parser_match', 'parser_member'],
+        units=['preresolved', 'interp', 'interp_vm_g0', 'compprog', 'parser_expr', 'parser_unary', 'parser_match', 'parser_member', 'parser_matchx'],
         not_covered=['that every block the compiler emits satisfies resolve()\'s precondition (unique, defined, forward labels) and is stack-balanced: parser contracts (not reached)',
                      'PreResolvedByteCode::extend / FromIterator (generic IntoIterator loops)'],
         assumptions=['HashMap<u32,usize> semantics (vstd)', 'locations[&label] rewritten to *locations.get(&label).unwrap() (std defines Index that way)'],
@@ -230,7 +230,7 @@ PROPS = {
         assumptions=['sort: the comparator is ord; that slice::sort_by with a total order returns an ordered permutation is std\'s contract (not under contract here)'],
     ),
     'C05': dict(
-        units=['value_cmp', 'value_arith', 'interp_vm_g0', 'interp_vm_g1', 'parser', 'parser_expr', 'parser_match'],
+        units=['value_cmp', 'value_arith', 'interp_vm_g0', 'interp_vm_g1', 'parser', 'parser_expr', 'parser_match', 'parser_matchx'],
         not_covered=[],
         assumptions=[],
     ),
